@@ -133,7 +133,7 @@ func (c *Conn) loop(ctx context.Context) {
 				if err != nil {
 					log.Println(err)
 				}
-				ok := n >= 0
+				ok := err == nil && n >= 0
 				if n < 0 {
 					n = 0
 				}
